@@ -5,39 +5,44 @@
     The "fresh copy" half of the property is an aliasing statement; the
     functional model has no sharing, so it is checked on the real objects by
     snapshot comparison (harness/props/c17.py, extra check
-    "fresh-copy-snapshot"), not by a theorem. *)
+    "fresh-copy-snapshot"), not by a theorem.
+
+    History: the unguarded statement used to be false of the faithful model for
+    names resolving through a default *sub-collection* (F-C17b, found by this
+    check); /repo commit 432fa0a repaired the code, the model follows the code,
+    and the theorem below no longer has that guard. *)
 From InvokeVerif Require Import Model.CollModel Spec.C17Spec Corr.C17Corr Proofs.C17_path.
 
-(** Flagship, proved form.  For EVERY built tree [c] and EVERY name, what the
-    model of [Collection.task_with_config] returns is accepted by the
-    executable specification: if [name] is a canonical name/alias/default-task
-    shortcut of a task (reference walk [ref_path]) and the configurations on
-    its path are type-consistent, the result is that task with, at every
-    setting path, the value of the outermost collection on the path defining
-    it, and nothing else (siblings contribute nothing).
-    Guards: [ns_canon] (binding names are transform-fixed, dot-free,
-    non-empty -- what [add_task]/[add_collection] store for dot-free names);
-    [no_default_subcollection]: no collection designates a sub-collection as
-    its default.  What is missing from full strength is exactly that second
-    guard: see the refutation below (F-C17b).  Type-inconsistent
-    configurations and trees with colliding bindings are outside the statement
-    (inside [spec_ok]). *)
-Theorem C17_path_deep_merge_partial : forall c name,
-  ns_canon c = true -> no_default_subcollection c = true ->
+(** Flagship.  For EVERY built tree [c] and EVERY name, what the model of
+    [Collection.task_with_config] returns is accepted by the executable
+    specification: if [name] is a canonical name, alias or default shortcut
+    (default task or default sub-collection, at any depth) of a task
+    (reference walk [ref_path]) and the configurations on its path are
+    type-consistent, the result is that task together with, at every setting
+    path, the value of the outermost collection on the path that defines it,
+    and nothing else (siblings contribute nothing).
+    Hypothesis [ns_canon]: binding names are fixed points of their collection's
+    [transform], dot-free and non-empty -- an invariant of trees built by
+    [add_task]/[add_collection] from dot-free non-empty names.
+    Inside [spec_ok]: trees where bindings of one collection collide
+    ([ns_wf]) and type-inconsistent configurations along the path (where
+    merge_dicts raises AmbiguousMergeError) are outside the statement. *)
+Theorem C17_path_deep_merge : forall c name,
+  ns_canon c = true ->
   spec_ok c name (model_obs c name) = true.
 Proof. exact model_meets_spec. Qed.
 
 (** The same in Prop form, without the executable wrapper. *)
-Theorem C17_setting_from_outermost_partial : forall c name t cfgs,
-  ns_wf c = true -> ns_canon c = true -> no_default_subcollection c = true ->
+Theorem C17_setting_from_outermost : forall c name t cfgs,
+  ns_wf c = true -> ns_canon c = true ->
   ref_path c (segs_of name) = Some (t, cfgs) -> all_compatible cfgs = true ->
   exists d, task_with_config c name = Ok (t, d) /\ wf (Node d) = true /\
             forall p, leaf_at p (Node d) = first_some (map (fun g => leaf_at p (Node g)) cfgs).
 Proof. exact path_deep_merge. Qed.
 
 (** Outer wins at each individual setting ... *)
-Theorem C17_outer_wins_partial : forall c name t cfg_outer cfgs_inner p v,
-  ns_wf c = true -> ns_canon c = true -> no_default_subcollection c = true ->
+Theorem C17_outer_wins : forall c name t cfg_outer cfgs_inner p v,
+  ns_wf c = true -> ns_canon c = true ->
   ref_path c (segs_of name) = Some (t, cfg_outer :: cfgs_inner) ->
   all_compatible (cfg_outer :: cfgs_inner) = true ->
   leaf_at p (Node cfg_outer) = Some v ->
@@ -45,8 +50,8 @@ Theorem C17_outer_wins_partial : forall c name t cfg_outer cfgs_inner p v,
 Proof. exact outer_wins. Qed.
 
 (** ... and inner settings are otherwise preserved, at any depth. *)
-Theorem C17_inner_preserved_partial : forall c name t cfg_outer cfgs_inner p,
-  ns_wf c = true -> ns_canon c = true -> no_default_subcollection c = true ->
+Theorem C17_inner_preserved : forall c name t cfg_outer cfgs_inner p,
+  ns_wf c = true -> ns_canon c = true ->
   ref_path c (segs_of name) = Some (t, cfg_outer :: cfgs_inner) ->
   all_compatible (cfg_outer :: cfgs_inner) = true ->
   leaf_at p (Node cfg_outer) = None ->
@@ -54,20 +59,21 @@ Theorem C17_inner_preserved_partial : forall c name t cfg_outer cfgs_inner p,
             leaf_at p (Node d) = first_some (map (fun g => leaf_at p (Node g)) cfgs_inner).
 Proof. exact inner_preserved. Qed.
 
-(** The unguarded statement is FALSE of the faithful model (F-C17b): a name
-    resolving through a default sub-collection loses the settings of the
-    collections below it.  Witness: root > sub (default = collection inner) >
-    inner > t; [configuration "sub"] lacks inner's [k.deep]. *)
-Theorem C17_path_deep_merge_refuted_default_subcollection :
-  exists c name, ns_wf c = true /\ ns_canon c = true /\
-                 spec_ok c name (model_obs c name) = false.
-Proof. exact refuted_default_subcollection. Qed.
+(** The former F-C17b witness (root > sub, whose default is the collection
+    inner, > inner > t): the default shortcut "sub" and the full name now give
+    the same three-level deep merge. *)
+Example C17_default_subcollection_shortcut :
+  ns_wf w_root = true /\ ns_canon w_root = true /\
+  configuration w_root "sub" = configuration w_root "sub.inner.t" /\
+  configuration w_root "sub" =
+  Ok [("k", Node [("deep", Leaf (VInt 1)); ("mid", Leaf (VInt 2)); ("top", Leaf (VInt 3))])].
+Proof. exact default_subcollection_shortcut. Qed.
 
-(** Non-vacuity: a tree inside every guard whose task is reached through an
-    alias below the root, two type-consistent configurations with an
+(** Non-vacuity: a tree inside every hypothesis whose task is reached through
+    an alias below the root, two type-consistent configurations with an
     overlapping section on its path. *)
-Example C17_example_guards_inhabited :
-  ns_wf ex_root = true /\ ns_canon ex_root = true /\ no_default_subcollection ex_root = true /\
+Example C17_example_hypotheses_inhabited :
+  ns_wf ex_root = true /\ ns_canon ex_root = true /\
   (exists t cfgs, ref_path ex_root (segs_of "inner.mt") = Some (t, cfgs) /\ all_compatible cfgs = true
                   /\ List.length cfgs = 2) /\
   configuration ex_root "inner" =
